@@ -23,12 +23,12 @@ REACH = ["rate", "_compute", "i_map", "od_reduce", "predict_win", "predict_draw"
 
 def floors(tier):
     q = tier == "quick"
-    return {"scale/rate": 20000 if q else 400000, "shift/rate": 10000 if q else 200000,
-            "scale/predict": 15000 if q else 300000, "shift/predict": 6000 if q else 120000}
+    return {"scale/rate": 20000 if q else 3200000, "shift/rate": 10000 if q else 1600000,
+            "scale/predict": 15000 if q else 2400000, "shift/predict": 6000 if q else 960000}
 
 
 def generate(ctx):
-    n = ctx.budget(9000, 160000)
+    n = ctx.budget(9000, 1280000)
     for _ in range(n):
         regime = ctx.rng.choice(["typical", "wide", "mismatch", "equal_size", "equal_size", "identical", "tiny_sigma", "huge_sigma"])
         # base scale moderate so that f in 1e-3..1e3 stays inside the six decades the property speaks about
